@@ -5,6 +5,8 @@ package ircserver
 import (
 	"fmt"
 	"sort"
+	"sync"
+	"sync/atomic"
 	"testing"
 	"time"
 
@@ -172,7 +174,8 @@ func verifExpiry(rep *verifrep.R, base int64, n int) {
 		id++
 		old := now.Add(-20 * exp)
 		srv.CreateSession(link, "auth", old)
-		for _, l := range []string{"PASS :services=svcpass", "SERVER services.example 1 :x", "NICK ChanServ 1 1 services host server 0 :svc", "NICK NickServ 1 1 services host server 0 :svc"} {
+		for _, l := range []string{"PASS :services=svcpass", "SERVER services.example 1 :x", "NICK ChanServ 1 1 services host server 0 :svc", "NICK NickServ 1 1 services host server 0 :svc",
+			"NICK Global 1 1 services host server 0 :svc", "NICK Bot1 1 1 services host server 0 :svc", ":Global JOIN #a"} {
 			msg := &robust.Message{Id: robust.Id{Id: id}, Session: link, Type: robust.IRCFromClient, Data: l, UnixNano: old.UnixNano()}
 			id++
 			srv.UpdateLastClientMessageID(msg)
@@ -212,4 +215,58 @@ func verifExpiry(rep *verifrep.R, base int64, n int) {
 			rep.Obs(fmt.Sprintf("expiry.asserted.expire=%v", w.expire), 1)
 		}
 	}
+}
+
+// TestVerifC17Concurrent: lookups race with the apply path. A session that is
+// never deleted may be "not yet seen" and then found, but never "no such session".
+func TestVerifC17Concurrent(t *testing.T) {
+	rep := verifrep.Open()
+	defer rep.Close()
+	rounds := verifrep.Cases(20000)
+	srv := verifNewServer()
+	now := time.Unix(1500000000, 0)
+	var next uint64 = 10
+	var stop int32
+	var bad atomic.Value
+	var wg sync.WaitGroup
+	var lookups int64
+	target := &next
+	for g := 0; g < 6; g++ {
+		wg.Add(1)
+		go func() {
+			defer wg.Done()
+			for atomic.LoadInt32(&stop) == 0 {
+				x := atomic.LoadUint64(target)
+				for d := uint64(0); d < 2; d++ {
+					_, err := srv.GetSession(robust.Id{Id: x + d*2})
+					atomic.AddInt64(&lookups, 1)
+					if err == ErrNoSuchSession {
+						bad.Store(fmt.Sprintf("GetSession(%d) = %v although that session is never deleted (created around the time of the lookup)", x+d*2, err))
+					}
+				}
+			}
+		}()
+	}
+	for r := 0; r < rounds && bad.Load() == nil; r++ {
+		x := atomic.LoadUint64(&next)
+		// CreateSession x, CreateSession x+2, then a message of x+2: lastProcessed moves past x
+		srv.CreateSession(robust.Id{Id: x}, "auth", now)
+		srv.CreateSession(robust.Id{Id: x + 2}, "auth", now)
+		msg := &robust.Message{Id: robust.Id{Id: x + 3}, Session: robust.Id{Id: x + 2}, Type: robust.IRCFromClient, Data: "PING x", UnixNano: now.UnixNano()}
+		srv.UpdateLastClientMessageID(msg)
+		srv.ProcessMessage(msg, irc.ParseMessage("PING x"))
+		srv.SetLastProcessed(robust.Id{Id: x + 2})
+		atomic.StoreUint64(&next, x+6)
+		if r%64 == 0 {
+			rep.Case(fmt.Sprintf("concurrent-lookup|%d", r/2048))
+		}
+	}
+	atomic.StoreInt32(&stop, 1)
+	wg.Wait()
+	if b := bad.Load(); b != nil {
+		rep.Violation("C17", "lookup:live-session-reported-nosuch-under-concurrency", b.(string), nil)
+	}
+	rep.Cases(int(atomic.LoadInt64(&lookups) / 100))
+	rep.Obs("concurrent.lookups", int(atomic.LoadInt64(&lookups)))
+	rep.Obs("concurrent.rounds", rounds)
 }
